@@ -191,6 +191,8 @@ impl OperationControl for Sequence {
 
 struct SequenceIterator<'a> {
     iterators: Vec<Box<dyn Iterator<Item = usize> + 'a>>,
+    // the position each of these iterators started from
+    starts: Vec<usize>,
     operations: &'a [Operation],
     backtracking_limit: Option<usize>,
     matcher: &'a ReMatcher<'a>,
@@ -221,6 +223,7 @@ impl<'a> SequenceIterator<'a> {
         };
         Self {
             iterators: vec![operations.first().unwrap().matches_iter(matcher, position)],
+            starts: vec![position],
             operations,
             backtracking_limit: matcher.program.backtracking_limit,
             matcher,
@@ -265,13 +268,20 @@ impl Iterator for SequenceIterator<'_> {
                     // otherwise we push a new iterator to the stack
                     let new_top = self.operations[i].matches_iter(self.matcher, next);
                     self.iterators.push(new_top);
+                    self.starts.push(next);
                 } else {
                     // continue until we have no more next in the top
                     break;
                 }
             }
-            // we are backtracking. pop the iterator from the stack
+            // we are backtracking. pop the iterator from the stack, and forget
+            // what this term and the ones after it captured: the next result
+            // of the previous term may lie further right (a reluctant
+            // repetition), where clearing beyond it would not reach them
             self.iterators.pop();
+            if let Some(start) = self.starts.pop() {
+                self.matcher.clear_captured_groups_beyond(start);
+            }
             if let Some(backtracking_limit) = self.backtracking_limit {
                 if counter > backtracking_limit {
                     // TODO: error
